@@ -98,8 +98,8 @@ pub trait BinaryOutput {
         deflater
             .read_to_end(&mut compressed)
             .map_err(|err| Error::CompressionFailure(format!("{err}")))?;
-        self.write_var_u32(bytes.len() as u32);
-        self.write_var_u32(compressed.len() as u32);
+        self.write_var_u32(bytes.len().try_into()?);
+        self.write_var_u32(compressed.len().try_into()?);
         self.write_bytes(&compressed);
         Ok(())
     }
